@@ -32,7 +32,7 @@ def tlc_scenarios(work, n, depth, seed_, overrides=None):
     with open(os.path.join(sdir, name), "w") as fh:
         fh.write(cfg)
     r = vlib.tlc(work, "Gen_EvmWatcher", name, workers=1,
-                 args=["-simulate", "num=%d" % n, "-depth", str(depth), "-seed", str(seed_)], timeout=600)
+                 args=["-simulate", "num=%d" % (3 * n), "-depth", str(depth), "-seed", str(seed_)], timeout=900)
     hs = vlib.tlc_prints(r["out"], "SCN")
     if not hs:
         raise vlib.Broken("TLC simulation produced no scenarios:\n" + r["out"][-2000:])
